@@ -138,10 +138,13 @@ def compression_value(e, comp, zstd_documented_range=True):
     lv = z3.BitVec("compression_level", 32)
     if comp in ("gzip", "xz"):
         e.solver.add(z3.ULE(lv, 9))
+        e.model = None
     elif comp == "bzip2":
         e.solver.add(z3.UGE(lv, 1), z3.ULE(lv, 9))
+        e.model = None
     elif comp == "zstd" and zstd_documented_range:
         e.solver.add(lv >= 1, lv <= 22)
+        e.model = None
     return Adt("CompressionWithLevel", comp.capitalize(), [Int(lv, "i32" if comp == "zstd" else "u32")])
 
 
@@ -434,7 +437,7 @@ def c09_build(ctx, name):
         if r.variant != "Ok":
             if name.endswith("_zstd"):
                 return          # the zstd encoder constructor returns io::Result: an error (not a panic) is within the property
-            ctx.fail("building a valid configuration fails", "PackageBuilder::build", kind="c09build", scenario=name)
+            ctx.fail("building a valid configuration fails (%s)" % (getattr(r.fields[0], "variant", r.fields[0]),), "PackageBuilder::build", kind="c09build", scenario=name)
             return
         pkg = r.fields[0]
         meta = pkg.fields[0]
@@ -748,6 +751,7 @@ def c06_files(ctx, nfiles):
     def body(e, inp):
         for f in inp["f"]:
             e.solver.add(z3.ULE(f["perm"], 0o7777))
+            e.model = None
         clock_stub(e, not_before=inp["sd"])
         b = builder_new(ctx, e)
         b = e.call_fn(ctx.impl_fn("compression", None, "PackageBuilder"), [b, Adt("CompressionWithLevel", "None")])
@@ -902,6 +906,7 @@ def c06_with_file(ctx, explicit_mode):
 
     def body(e, inp):
         e.solver.add((inp["st_mode"] & 0o170000) == 0o100000, z3.ULE(inp["st_mode"], 0o177777), z3.ULE(inp["m"], 0o7777))
+        e.model = None
         clock_stub(e)
         intrinsics3.SRC_FILE[0] = ([inp["c"]], inp["st_mode"], z3.ZeroExt(32, inp["mt"]))
         b = builder_new(ctx, e)
